@@ -4,13 +4,16 @@ import importlib, os, sys
 sys.path.insert(0, os.path.dirname(os.path.abspath(__file__)))
 import vcheck
 sys.path.insert(0, os.path.join(vcheck.VERIF, "props"))
-ok, exe, out = vcheck.build_harness()
-print("harness:", "ok" if ok else out)
 seen = set()
+seenh = set()
 for f in sorted(os.listdir(os.path.join(vcheck.VERIF, "props"))):
     if f.endswith(".py") and f[0] == "C":
         cfg = importlib.import_module(f[:-3])
         for run in getattr(cfg, "RUNS", []):
+            if run["harness"] not in seenh:
+                seenh.add(run["harness"])
+                ok, exe, out = vcheck.build_harness(run["harness"])
+                print("harness", run["harness"], "ok" if ok else out)
             if run["driver"] in seen:
                 continue
             seen.add(run["driver"])
